@@ -351,7 +351,7 @@ def fq(h):
         # harness of a private-function module: in_<module>.rs mounted at crate::<module>::verif_in
         return "%s::verif_in::%s" % ({"inp": "parse", "ind": "dlt", "inr": "read", "ins": "statistics"}[mod], h)
     mod = {"c03": "c04", "c05": "c04"}.get(mod, mod)
-    if h == "c15_valid_contract":
+    if h in ("c15_valid_contract", "c15_arg_count_contract"):
         mod = "c14"
     return "verif_kani::%s::%s" % (mod, h)
 
